@@ -155,6 +155,9 @@ def _store_nontrivial(lines):
     return over and comp
 
 
+_LOCKORDER_STREAM = {"name": "lockorder", "harness": "locks", "driver": "locks", "quick_cases": 70, "thorough_cases": 2000,
+                     "nontrivial": lambda lines: any(l.startswith("pair") and l.split()[1] != l.split()[2] for l in lines),
+                     "judge": pattern_judge, "timeout": 3000}
 _CKEY_STREAM = {"name": "ckey", "harness": "ckey", "driver": "ckey", "judge_driver": "ckey-judge",
                 "quick_cases": 100000, "thorough_cases": 100000, "nontrivial": lambda lines: len(lines) > 16}
 _STORE_STREAM = {"name": "store", "harness": "store", "driver": "store", "quick_cases": 150, "thorough_cases": 3000,
@@ -333,8 +336,13 @@ PROPS = {
         "streams": [
             {"name": "pipeline", "harness": "c05", "driver": "c05", "quick_cases": 400, "thorough_cases": 6000,
              "nontrivial": _c05_nontrivial, "judge": c05_judge},
+            # store level: a committer inside the real apply (batch added to the active memtable under its read lock) against
+            # rotation + flush of the pending memtables, every interleaving of the stops after the nested lock acquisitions;
+            # the committed keys must all be readable afterwards
+            _LOCKORDER_STREAM,
         ],
-        "rule": "the real CommitPipeline over a mock environment, 2-4 (thorough 2-6) committer threads held at the crate's "
+        "rule": "(lockorder) as C17: pairs of real store operations incl. commit vs rotate+flush under every interleaving, with a read-back of "
+                "the committed keys before and after a full flush. (pipeline) the real CommitPipeline over a mock environment, 2-4 (thorough 2-6) committer threads held at the crate's "
                 "verif_yield! points and at per-entry gates inside apply; random schedules of begin/step/probe (10-60 ops, "
                 "<= 7 commits, 1-3 entries on 3 keys, injected WAL failures and apply failures after a prefix) followed by a "
                 "deterministic drain; after every step the yield point reached and the horizon are compared with the model, "
@@ -356,9 +364,7 @@ PROPS = {
              "judge": lambda op, impl, spec: not ("PANIC" in impl or "HANG" in impl or impl == "bad-op")},
             # store level: two real operations (iterator state, flush of one immutable memtable, memtable rotation, compaction
             # manifest update) stopped after every nested lock acquisition, under every interleaving of those stops
-            {"name": "lockorder", "harness": "locks", "driver": "locks", "quick_cases": 70, "thorough_cases": 1000,
-             "nontrivial": lambda lines: any(l.startswith("pair") and l.split()[1] != l.split()[2] for l in lines),
-             "judge": pattern_judge, "timeout": 3000},
+            _LOCKORDER_STREAM,
             # write-stall wait: committers inside the real WriteStallController::check advanced from pause point to pause point
             # against stall / clear / signal / shutdown; "blocked" is observed exactly (hand-polled future, waker not called)
             {"name": "stallwait", "harness": "stall", "driver": "stall", "quick_cases": 1500, "thorough_cases": 60000,
